@@ -747,4 +747,73 @@ def F37H.json (v : F37H) : J :=
   let num := match J.dec v.rate with | .num t => if v.neg then J.num ('-' :: t) else J.num t | j => j
   .obj [("rate_indicator", .str [v.ind]), ("is_negative", if v.neg then .bool true else .null), ("rate", num)]
 
+/-! ### 61 statement line `6!n[4!n]2a[1!a]15d1!a3!c16x[//16x][34x]` -/
+
+structure F61 where
+  date : YMD
+  entry : Option Text
+  dc : Text
+  funds : Option Char
+  amt : Dec
+  ttype : Text
+  cref : Text
+  bref : Option Text
+  supp : Option Text
+  deriving Repr
+
+def isUpperOrDigit (c : Char) : Bool := c.isUpper || c.isDigit
+
+def F61.parse (input : Text) : Res F61 :=
+  if blen input < 12 then .err
+  else if !isAsciiT input then .err
+  else match parseDateYYMMDD (input.take 6) with
+    | none => .err
+    | some d =>
+      let r1 := input.drop 6
+      let hasEntry := decide (4 ≤ r1.length) && (r1.take 4).all Char.isDigit
+      let entry : Option Text := if hasEntry then some (r1.take 4) else none
+      let r2 := if hasEntry then r1.drop 4 else r1
+      if r2.isEmpty then .err
+      else
+        let dcLen := if decide (2 ≤ r2.length) && (r2.take 2 == ['R', 'D'] || r2.take 2 == ['R', 'C']) then 2 else 1
+        let dc := r2.take dcLen
+        if !([['D'], ['C'], ['R', 'D'], ['R', 'C']].contains dc) then .err
+        else
+          let r3 := r2.drop dcLen
+          let hasFunds := match r3 with | c :: _ => c.isUpper | [] => false
+          let funds : Option Char := if hasFunds then r3.head? else none
+          let r4 := if hasFunds then r3.drop 1 else r3
+          let amtStr := r4.takeWhile (fun c => c.isDigit || c == ',' || c == '.')
+          if amtStr.isEmpty then .err
+          else match parseAmountMaxLen amtStr 15 with
+            | none => .err
+            | some amt =>
+              let r5 := r4.drop amtStr.length
+              if r5.length < 4 then .err
+              else
+                let tt := r5.take 4
+                if !((match tt with | c :: _ => c.isUpper | [] => false) && tt.all isUpperOrDigit) then .err
+                else
+                  let remaining := r5.drop 4
+                  let (refs, supp) : Text × Option Text := match findChar '\n' remaining with
+                    | some p => (remaining.take p, some (remaining.drop (p + 1)))
+                    | none => (remaining, none)
+                  let (cref, bref) : Text × Option Text := match findSub ['/', '/'] refs with
+                    | some p => (refs.take p, some (refs.drop (p + 2)))
+                    | none => (refs, none)
+                  if blen cref > 16 then .err
+                  else if !(cref.all isSwiftX) then .err
+                  else if (match bref with | some b => b.isEmpty || blen b > 16 || !(b.all isSwiftX) | none => false) then .err
+                  else if (match supp with | some x => x.isEmpty || blen x > 34 || !(x.all isSwiftX) | none => false) then .err
+                  else .ok ⟨d, entry, dc, funds, amt, tt, cref, bref, supp⟩
+def F61.ser (v : F61) : Text :=
+  printYYMMDD v.date ++ (v.entry.getD []) ++ v.dc ++ (match v.funds with | some c => [c] | none => []) ++
+  formatAmount v.amt.normalize 2 ++ v.ttype ++ v.cref ++ (match v.bref with | some b => '/' :: '/' :: b | none => []) ++
+  (match v.supp with | some x => '\n' :: x | none => [])
+def F61.json (v : F61) : J :=
+  .obj [("value_date", .str (isoDate v.date)), ("entry_date", J.optStr v.entry), ("debit_credit_mark", .str v.dc),
+        ("funds_code", match v.funds with | some c => .str [c] | none => .null), ("amount", J.dec v.amt),
+        ("transaction_type", .str v.ttype), ("customer_reference", .str v.cref), ("bank_reference", J.optStr v.bref),
+        ("supplementary_details", J.optStr v.supp)]
+
 end SwiftMT.Fields
